@@ -260,6 +260,84 @@ impl State {
         forall|m: Seq<char>, n: Seq<char>| imp_has_from(*old(imp), m, n) ==> imp_has_from(*final(imp), m, n),   //# imports_only_grow [C16]
 //@@ END
 
+// ---- control flow (C01 "if/match/while/for"; "if/match as expression -> assignment in every branch or ternary") --------
+/// state in which conditions and match subjects are converted: no pending assign / return request
+pub open spec fn cond_state(s: State) -> State { State { is_last_must_be_ret: false, must_assign_to: None, ..s } }
+/// state of the two arms of a ternary: additionally an explicit `return` in an arm is removed
+pub open spec fn ternary_state(s: State) -> State { State { is_last_must_be_ret: false, is_remove_last_ret: true, must_assign_to: None, ..s } }
+
+pub open spec fn ternary_ok(then: ASTTy, el: ASTTy) -> bool {
+    !(then.node is Block) && !(then.node is Raise) && !(el.node is Block) && !(el.node is Raise)
+}
+
+pub open spec fn well_formed_case(c: ASTTy) -> bool {
+    c.node matches NodeTy::Case { cond, body } && cond.node is ExpressionType
+}
+
+pub open spec fn case_image(c: ASTTy, state: State, ctx: Context, out: Core) -> bool {
+    match c.node {
+        NodeTy::Case { cond, body } => match cond.node {
+            NodeTy::ExpressionType { expr, mutable, ty } =>
+                out matches Core::Case { expr: e2, body: b2 }
+                && Some(*e2) == conv(*expr, cond_state(state), ctx) && Some(*b2) == conv(*body, state, ctx),
+            _ => false,
+        },
+        _ => false,
+    }
+}
+
+/// what convert_cntrl_flow must return: every branch / body is converted in the CALLER's state (so a pending
+/// "assign the result to x" or "return the result" request reaches every branch), conditions in cond_state
+pub open spec fn cf_post(ast: ASTTy, state: State, ctx: Context, c: Core) -> bool {
+    match ast.node {
+        NodeTy::IfElse { cond, then, el } => match el {
+            Some(e) =>
+                if ast.ty is Some && ternary_ok(*then, *e) {
+                    c matches Core::Ternary { cond: c2, then: t2, el: e2 }
+                    && Some(*c2) == conv(*cond, cond_state(state), ctx)
+                    && Some(*t2) == conv(*then, ternary_state(state), ctx) && Some(*e2) == conv(*e, ternary_state(state), ctx)
+                } else {
+                    c matches Core::IfElse { cond: c2, then: t2, el: e2 }
+                    && Some(*c2) == conv(*cond, cond_state(state), ctx)
+                    && Some(*t2) == conv(*then, state, ctx) && Some(*e2) == conv(*e, state, ctx)
+                },
+            None =>
+                c matches Core::If { cond: c2, then: t2 }
+                && Some(*c2) == conv(*cond, cond_state(state), ctx) && Some(*t2) == conv(*then, state, ctx),
+        },
+        NodeTy::While { cond, body } =>
+            c matches Core::While { cond: c2, body: b2 } && Some(*c2) == conv(*cond, state, ctx) && Some(*b2) == conv(*body, state, ctx),
+        NodeTy::For { expr, col, body } =>
+            c matches Core::For { expr: x2, col: c2, body: b2 }
+            && Some(*x2) == conv(*expr, state, ctx) && Some(*c2) == conv(*col, state, ctx) && Some(*b2) == conv(*body, state, ctx),
+        NodeTy::Match { cond, cases } =>
+            c matches Core::Match { expr: x2, cases: k2 }
+            && Some(*x2) == conv(*cond, cond_state(state), ctx)
+            && k2@.len() <= cases@.len()
+            && ((forall|i: int| 0 <= i < cases@.len() ==> well_formed_case(#[trigger] cases@[i]))
+                ==> k2@.len() == cases@.len() && forall|i: int| 0 <= i < cases@.len() ==> case_image(#[trigger] cases@[i], state, ctx, k2@[i])),
+        NodeTy::Break => c == Core::Break,
+        NodeTy::Continue => c == Core::Continue,
+        _ => true,
+    }
+}
+
+//@@ FN src/generate/convert/control_flow.rs | free | is_valid_in_ternary
+    ensures r == ternary_ok(*then, *el),                                         //# ternary_only_for_simple_arms [C01]
+//@@ END
+
+//@@ FN src/generate/convert/control_flow.rs | free | convert_cntrl_flow
+//@@ ITERNAME
+//@@< for case in match_cases
+//@@> for case in it: match_cases
+//@@ LOOPINV
+//@@< for case in match_cases
+//@@> invariant cases@.len() <= it.index@, forall|m: Seq<char>, n: Seq<char>| imp_has_from(*old(imp), m, n) ==> imp_has_from(*imp, m, n), (forall|i: int| 0 <= i < it.index@ ==> well_formed_case(#[trigger] match_cases@[i])) ==> cases@.len() == it.index@ && forall|i: int| 0 <= i < it.index@ ==> case_image(#[trigger] match_cases@[i], *state, *ctx, cases@[i]),
+    ensures
+        r matches Ok(c) ==> cf_post(*ast, *state, *ctx, c),                      //# branches_converted_in_callers_state [C01]
+        forall|m: Seq<char>, n: Seq<char>| imp_has_from(*old(imp), m, n) ==> imp_has_from(*final(imp), m, n),   //# imports_only_grow [C16]
+//@@ END
+
 } // verus!
 
 fn main() {}
